@@ -322,6 +322,19 @@ func rulesFastqLayout(c *Ctx, r *Report) {
 					guards["nonempty"] = true
 				}
 			}
+			// the same two tests on line 3 with '+': the byte-level form of HasPrefix(line3, "+")
+			for _, pr := range [][2]*Sym{{l, rr}, {rr, l}} {
+				if pr[1].Op == "const" && pr[1].Leaf == "43" && pr[0].Op == "load" && pr[0].Args[0].Op == "index" && pr[0].Args[0].Args[1].String() == "0" {
+					if scanOf(pr[0].Args[0].Args[0].Val) == 3 && ((x.Op == token.NEQ && onFalse) || (x.Op == token.EQL && onTrue)) {
+						guards["plus0"] = true
+					}
+				}
+			}
+			if l.Op == "builtin:len" && rr.Op == "const" && rr.Leaf == "0" && scanOf(l.Args[0].Val) == 3 {
+				if (x.Op == token.EQL && onFalse) || (x.Op == token.NEQ && onTrue) || (x.Op == token.GTR && onTrue) {
+					guards["plusNonEmpty"] = true
+				}
+			}
 			// len(quals) ? len(seq)
 			if l.Op == "builtin:len" && rr.Op == "builtin:len" {
 				a, b2 := scanOf(l.Args[0].Val), scanOf(rr.Args[0].Val)
@@ -344,6 +357,9 @@ func rulesFastqLayout(c *Ctx, r *Report) {
 		}
 	}
 	r.check(guards["at"] && guards["nonempty"], "REJECT", where, "leading '@'", c.pos(acc.Pos()), "the accepting return lies behind len(line1) > 0 and line1[0] == '@'", "a record whose first line is empty or does not start with '@' can reach the accepting return")
+	if guards["plus0"] && guards["plusNonEmpty"] {
+		guards["plus"] = true
+	}
 	r.check(guards["plus"], "REJECT", where, "'+' separator", c.pos(acc.Pos()), "the accepting return lies behind HasPrefix(line3, \"+\")", "a record whose third line does not start with '+' (e.g. is empty) can reach the accepting return")
 	r.check(guards["lengths"], "REJECT", where, "equal lengths", c.pos(acc.Pos()), "the accepting return lies behind len(line4) == len(line2)", "a record whose qualities and sequence differ in length can reach the accepting return")
 }
